@@ -23,8 +23,9 @@ DIRS = {"d1": "$" + "1A" * 20, "d2": "$" + "2B" * 20, "d3": "$" + "3C" * 20, "d4
 
 
 class Run(object):
-    def __init__(self, mode, kind, prelude=False):
-        self.mode, self.kind, self.prelude = mode, kind, prelude
+    def __init__(self, mode, kind, prelude=False, he=False):
+        self.mode, self.kind, self.prelude, self.he = mode, kind, prelude, he
+        assert not he or kind == "fs"
         self.proto = TorControlProtocol()
         self.tr = proto_helpers.StringTransport()
         self.sim = simtor.SimTor(self.proto, self.tr)
@@ -35,7 +36,7 @@ class Run(object):
 
         def add_onion(line):
             self.nadd += 1
-            sid = "previousprevious" if (self.prelude and self.nadd == 1) else IDS["me"]
+            sid = "previousprevious" if (self.prelude is True and self.nadd == 1) else IDS["me"]
             return ("250-ServiceID=%s\r\n250-PrivateKey=ED25519-V3:c29tZWtleQ==\r\n250 OK\r\n" % sid).encode()
         self.sim.handlers["ADD_ONION"] = add_onion
         self.proto.makeConnection(self.tr)
@@ -45,7 +46,12 @@ class Run(object):
         self.config = d.result
         self.reactor = proto_helpers.MemoryReactorClock()
         self.hold_se = False
-        if prelude:
+        if prelude == "listener":
+            # the application has an HS_DESC listener of its own on this connection
+            self.proto.add_event_listener("HS_DESC", lambda text: None)
+            self.sim.pump()
+            prelude = False
+        if prelude is True:
             # an earlier service has just been created on this connection: its descriptor wait is over, the SETEVENTS
             # that gives up HS_DESC is still unanswered when the creation under test starts
             prev = EphemeralOnionService.create(self.reactor, self.config, ["81 127.0.0.1:8081"], version=3)
@@ -68,6 +74,10 @@ class Run(object):
                                                  await_all_uploads=await_all)
             else:
                 self.tmp = tempfile.mkdtemp(prefix="verif-hs-")
+                if he:
+                    # a directory Tor has served before: the hostname file is there before Tor answers
+                    with open(os.path.join(self.tmp, "hostname"), "w") as f:
+                        f.write(IDS["me"] + ".onion\n")
                 d = FilesystemOnionService.create(self.reactor, self.config, self.tmp, ["80 127.0.0.1:8080"], version=3,
                                                   await_all_uploads=await_all)
             d.addBoth(self.fired.append)
@@ -106,15 +116,22 @@ class Run(object):
         created = "p"
         if self.fired:
             created = "err" if isinstance(self.fired[0], failure.Failure) else "ok"
-        return dict(created=created, n=len(self.fired), subscribed="HS_DESC" in self.proto.events, exc=self.exc)
+        ev = self.proto.events.get("HS_DESC")
+        if self.prelude == "listener":
+            # the event stays subscribed because of the application's own listener: what counts is whether the
+            # creation's listener is still registered next to it
+            subscribed = ev is not None and len(ev.callbacks) > 1
+        else:
+            subscribed = ev is not None
+        return dict(created=created, n=len(self.fired), subscribed=subscribed, exc=self.exc)
 
     def close(self):
         if self.tmp:
             shutil.rmtree(self.tmp, True)
 
 
-def replay(script, mode, kind, prelude=False):
-    run = Run(mode, kind, prelude)
+def replay(script, mode, kind, prelude=False, he=False):
+    run = Run(mode, kind, prelude, he)
     steps = []
     for e in script:
         s = dict(e)
@@ -123,7 +140,7 @@ def replay(script, mode, kind, prelude=False):
         if run.exc:
             break
     run.close()
-    return dict(steps=steps, mode=mode, kind=kind, prelude=prelude, errors=run.errors[:2])
+    return dict(steps=steps, mode=mode, kind=kind, prelude=prelude, he=he, errors=run.errors[:2])
 
 
 class _Sink(object):
